@@ -1795,7 +1795,108 @@ def _merge_local_tables(tree):
     return n_done
 
 
+def _symbol_helpers_to_predicates(tree, modname):
+    """The writer asks "does this edge need a symbol" and then looks the symbol up.  A refactoring folds both into one helper
+    that returns the symbol or the empty string: `sym = edge_symbol(mol, i, j)`.  Such a helper (three positional parameters,
+    every return is '' or TABLE[...]) is read as the predicate it contains; the call sites are rewritten to the form the
+    emission model knows,
+
+        sym = ''
+        if helper(mol, i, j)[ and cond]:
+            sym = TABLE[mol.edges[i, j].get('order', 1)]
+
+    and the helper itself is kept as a function (its truth table is judged by TT.edge-symbol: '' is "no symbol").  That the
+    returned symbol is TABLE[order of that edge] is part of what the helper is checked for: every non-empty return must be
+    a subscript of one table by a value read from `mol.edges[i, j]`."""
+    if modname != "write_cgsmiles":
+        return set()
+    helpers = {}
+    for st in tree.body:
+        if not isinstance(st, ast.FunctionDef) or st.decorator_list:
+            continue
+        a = st.args
+        if len(a.args) != 3 or a.vararg or a.kwarg or a.kwonlyargs:
+            continue
+        rets = [r.value for r in ast.walk(st) if isinstance(r, ast.Return)]
+        if len(rets) < 2 and not (len(rets) == 1 and isinstance(rets[0], ast.IfExp)):
+            continue
+        leaves = []
+        for r in rets:
+            stack = [r]
+            while stack:
+                x = stack.pop()
+                if isinstance(x, ast.IfExp):
+                    stack += [x.body, x.orelse]
+                else:
+                    leaves.append(x)
+        tables = set()
+        ok = True
+        empty = False
+        for x in leaves:
+            if isinstance(x, ast.Constant) and x.value == "":
+                empty = True
+            elif isinstance(x, ast.Subscript) and isinstance(x.value, ast.Name):
+                tables.add(x.value.id)
+            else:
+                ok = False
+        if ok and empty and len(tables) == 1:
+            # the subscript must be derived from the edge of the two node parameters
+            src = ast.unparse(st)
+            if ".edges[" in src and "order" in src:
+                helpers[st.name] = tables.pop()
+    if not helpers:
+        return set()
+    n = 0
+
+    def edge_order(call):
+        mol = call.args[0]
+        if len(call.args) == 3 and not any(isinstance(x, ast.Starred) for x in call.args):
+            key = ast.Tuple(elts=[call.args[1], call.args[2]], ctx=ast.Load())
+        elif len(call.args) == 2 and isinstance(call.args[1], ast.Starred):
+            key = call.args[1].value
+        else:
+            return None
+        edges = ast.Subscript(value=ast.Attribute(value=mol, attr="edges", ctx=ast.Load()), slice=key, ctx=ast.Load())
+        return ast.Call(func=ast.Attribute(value=edges, attr="get", ctx=ast.Load()), args=[ast.Constant("order"), ast.Constant(1)], keywords=[])
+
+    class T(ast.NodeTransformer):
+        def visit_FunctionDef(self, node):
+            if node.name in helpers:
+                return node
+            self.generic_visit(node)
+            return node
+
+        def visit_Assign(self, node):
+            nonlocal n
+            if len(node.targets) != 1 or not isinstance(node.targets[0], ast.Name):
+                return node
+            v = node.value
+            cond = None
+            if isinstance(v, ast.IfExp) and isinstance(v.orelse, ast.Constant) and v.orelse.value == "":
+                cond, v = v.test, v.body
+            if not (isinstance(v, ast.Call) and isinstance(v.func, ast.Name) and v.func.id in helpers and not v.keywords):
+                return node
+            order = edge_order(v)
+            if order is None:
+                return node
+            tgt = node.targets[0].id
+            test = v if cond is None else ast.BoolOp(op=ast.And(), values=[v, cond])
+            look = ast.Subscript(value=ast.Name(id=helpers[v.func.id], ctx=ast.Load()), slice=order, ctx=ast.Load())
+            out = [ast.Assign(targets=[ast.Name(id=tgt, ctx=ast.Store())], value=ast.Constant(""), lineno=node.lineno),
+                   ast.If(test=test, body=[ast.Assign(targets=[ast.Name(id=tgt, ctx=ast.Store())], value=look, lineno=node.lineno)], orelse=[])]
+            for o in out:
+                ast.copy_location(o, node)
+            n += 1
+            return out
+    tree = T().visit(tree)
+    if n:
+        ast.fix_missing_locations(tree)
+        return set(helpers)
+    return set()
+
+
 def inline_module(tree, modname):
+    sym_helpers = _symbol_helpers_to_predicates(tree, modname)
     n_rec = _namedtuples_to_tuples(tree)
     n_unroll = _unroll_small_loops(tree)
     n_alias = _unalias_lookups(tree)
@@ -1805,7 +1906,11 @@ def inline_module(tree, modname):
     jt = _JoinToLoop()
     tree = jt.run(tree)
     inl = Inliner(tree, modname)
+    if sym_helpers and inl.known is not None:
+        inl.known = set(inl.known) | sym_helpers
     tree = inl.run()
+    if sym_helpers:
+        inl.report.append("symbol-returning helper(s) %s read as the edge-needs-symbol predicate" % ", ".join(sorted(sym_helpers)))
     n_tab = _merge_local_tables(tree) if inl.report else 0
     if n_tab:
         inl.report.append("%d local tables merged with update() read as direct stores" % n_tab)
